@@ -175,8 +175,14 @@ scalars = st.one_of(st.none(), st.booleans(), ints, floats_finite, texts, texts,
 scalars_with_bad = st.one_of(scalars, floats_bad)
 
 
+# json.dumps accepts str, int, float, bool and None as dictionary keys and writes them as strings ("1", "1.5", "true", "null"):
+# such dictionaries are JSON-encodable arguments like any other, also when the key types are mixed (not mutually orderable)
+NON_STR_KEYS = st.one_of(st.integers(-3, 12), st.booleans(), st.none(), st.sampled_from([1.5, 2.0, -0.0, 1e21]))
+DICT_KEYS = st.one_of(st.sampled_from(KEYS), st.sampled_from(OPS), st.text(max_size=3), st.sampled_from(KEYS), NON_STR_KEYS)
+
+
 def json_values(leaf):
-    return st.recursive(leaf, lambda inner: st.one_of(st.lists(inner, max_size=4), st.dictionaries(st.one_of(st.sampled_from(KEYS), st.sampled_from(OPS), st.text(max_size=3)), inner, max_size=4)), max_leaves=12)
+    return st.recursive(leaf, lambda inner: st.one_of(st.lists(inner, max_size=4), st.dictionaries(DICT_KEYS, inner, max_size=4)), max_leaves=12)
 
 
 values = json_values(scalars)
@@ -209,6 +215,14 @@ def compact_sorted(x):
     return json.dumps(x, separators=(",", ":"), sort_keys=True, ensure_ascii=False)
 
 
+def compact_sorted_or_plain(x):
+    """text generator only: dictionaries whose keys are of mixed types cannot be sorted"""
+    try:
+        return compact_sorted(x)
+    except TypeError:
+        return json.dumps(x, separators=(",", ":"), ensure_ascii=False)
+
+
 def loads_decimal(s):
     return json.loads(s, parse_float=decimal.Decimal)
 
@@ -217,9 +231,38 @@ SERIALIZERS = {"omitted": MISSING, "json.dumps": json.dumps, "compact-sorted-utf
 DESERIALIZERS = {"omitted": MISSING, "json.loads": json.loads, "parse_float=Decimal": loads_decimal, "identity": (lambda s: s)}
 
 
+KEY_TAG = "\u00a7k:"
+
+
+def tag_keys(x):
+    """saved cases are JSON: dictionary keys that are not str are written as a tagged repr so that a replay rebuilds them"""
+    if isinstance(x, dict):
+        return {(k if isinstance(k, str) else KEY_TAG + repr(k)): tag_keys(v) for k, v in x.items()}
+    if isinstance(x, (list, tuple)):
+        return [tag_keys(v) for v in x]
+    return x
+
+
+def untag_keys(x):
+    import ast
+    if isinstance(x, dict):
+        out = {}
+        for k, v in x.items():
+            if k.startswith(KEY_TAG):
+                try:
+                    k = ast.literal_eval(k[len(KEY_TAG):])
+                except Exception:
+                    pass
+            out[k] = untag_keys(v)
+        return out
+    if isinstance(x, list):
+        return [untag_keys(v) for v in x]
+    return x
+
+
 def describe(x):
     try:
-        return json.dumps(x, ensure_ascii=True)
+        return json.dumps(tag_keys(x), ensure_ascii=True)
     except Exception:
         return repr(x)
 
@@ -332,7 +375,7 @@ def judge(what, want, got):
 MALFORMED = ["", " ", "{", "[1,", "nul", "True", "NaN", "Infinity", "-Infinity", "'a'", "[1,]", "{\"a\":}", "\ufeff1", "1 2", "01", "1.", ".5", "+1", "\"\\ud800\"", "\"unterminated", "[" * 129 + "1" + "]" * 129, "1e999", "-", "tru", "{\"var\":\"a\"}}"]
 text_values = st.one_of(
     rule_objects.map(json.dumps),
-    rule_objects.map(compact_sorted),
+    rule_objects.map(compact_sorted_or_plain),
     rule_objects.map(lambda x: json.dumps(x, indent=1)),
     st.sampled_from(MALFORMED),
     rule_objects.flatmap(lambda x: st.integers(0, 40).map(lambda k: json.dumps(x)[:k])),
@@ -641,7 +684,7 @@ if args.replay_sub:
     # re-execute exactly one saved case (strict), no generation
     stats = Stats()
     RESULT[args.replay_sub] = stats
-    case = json.loads(open(args.replay_case_file).read())
+    case = untag_keys(json.loads(open(args.replay_case_file).read()))
     if isinstance(case, dict) and case.get("import_check"):
         # the import check at the top of this script is the replay; reaching this point means the module is usable
         stats.record(IMPORT_CASE, "import check", True)
@@ -668,7 +711,7 @@ def run_regressions():
         if sub not in BODIES:
             continue
         stats = RESULT.setdefault(sub, Stats())
-        case = rec["case"]
+        case = untag_keys(rec["case"])
         case_text = describe(case)
         mark_current(sub, case_text)
         try:
